@@ -158,7 +158,7 @@ class CategoricalCalibration(keras.layers.Layer):
     self.kernel_initializer = keras.initializers.get(kernel_initializer)
     self.kernel_regularizer = []
     if kernel_regularizer:
-      if callable(kernel_regularizer):
+      if callable(kernel_regularizer) or isinstance(kernel_regularizer, (str, dict)):
         kernel_regularizer = [kernel_regularizer]
       for reg in kernel_regularizer:
         self.kernel_regularizer.append(keras.regularizers.get(reg))
